@@ -10,6 +10,9 @@ CHECKS = {
  "C01": ("exploration", "runtime reference-model monitor: every ring op executed on boundary-pattern inputs and compared lane by lane with exact 128-bit/naive-convolution models",
          "Every SubRing/Ring/ringqp op, both NTT transformers, automorphisms and monomial products are executed on (ring type x logN x prime size 7..61 bits x prime position x input pattern x extreme lane) and each output lane is compared with an exact model; ranges are checked where documented. Sampled, not exhaustive in prime values.",
          "trusts bits.Mul64/Div64 + math/big as the model; input domains for undocumented ops are the narrowest in-tree callers use", "4/C01"),
+ "C02": ("exploration", "runtime reference-model monitor: rescaling, basis extension and RNS decomposition executed on divisor-boundary inputs and compared coefficient-wise with math/big integer division / centred lifting / gadget recombination",
+         "All DivFloor/DivRound(Many)(NTT) variants for every level and number of consecutive rescalings, ModUpQtoP/PtoQ and ModDownQPtoQ(NTT)/QPtoP for every (levelQ, levelP) pair, Decomposer.DecomposeAndSplit for every digit, rlwe.Evaluator.DecomposeNTT recombination against the RNS gadget vector, and the small-norm centred extension, on chains of 1..6 Q primes and 0..3 P primes of unequal sizes; boundary-heavy inputs; sampled chains.",
+         "trusts math/big; allowed slack is exactly the one the property states (one multiple of the source modulus for ModUp, 1 for ModDown, same offset on every output modulus)", "4/C02"),
 }
 ALL = [f"C{i:02d}" for i in range(1, 21)]
 PENDING_REASON = "monitor not built yet in this session (planned in DESIGN.md section 4); nothing is claimed for it"
